@@ -288,6 +288,21 @@ def c02():
                              'two inode levels (instance > 40 GB), byte-string keys at tree level, mutex/OLC instantiations (see C13/C16).')
 
 
+OLC_DBG_SEQ = {
+    'd_scan_then_remove': 'forward scan through an inner node, then the removals that dissolve that node',
+    'd_scanrev_then_remove': 'reverse scan through an inner node, then the removals that dissolve the first inner node',
+    'd_from_then_remove': 'scan_from (forward, bound not stored) through an inner node, then the removals that dissolve it',
+    'd_fromrev_then_remove': 'scan_from (reverse, bound not stored) through an inner node, then the removals that dissolve it',
+    'd_range_then_remove': 'ascending scan_range over two inner nodes, then removals',
+    'd_rangerev_then_remove': 'descending scan_range over two inner nodes, then removals',
+    'd_flat_scan_grow': 'scan of one I4, inserts that grow it to I16, reverse scan_from, removal',
+    'd_deep_remove': 'remove through three inner levels, then removals that dissolve the upper nodes',
+    'd_deep_get_insert': 'get and insert through three inner levels, then a removal',
+    'd_deep_miss': 'failing remove/get through three inner levels, duplicate insert, removal of an absent key',
+    'd_deep_scan': 'scan_from through three inner levels, removals, reverse scan',
+}
+
+
 def c16():
     qs = []
     QN = {'n48_addslot_46', 'n4_find_3', 'n4_find_4', 'n4_add_3', 'n4_rem_4_1', 'n16_find_5', 'n16_find_16', 'n16_add_5', 'n16_add_15', 'n16_rem_16_7', 'n48_find', 'n48_rem_mid', 'n256_find', 'n256_add_remove'}
@@ -307,6 +322,18 @@ def c16():
             if not q.entry.startswith('scan_'):
                 q.tier = 'thorough'
             qs.append(q)
+    # assertion-enabled OLC index: operation sequences that end with every node handed back, so that the library's debug accounting
+    # (read_lock_count == 0 when a node is freed) is exercised on every node a scan / point operation went through
+    for cfg in ('debug', 'nsdebug'):
+        ud = U('olc_dbg.cpp', cfg, defines=['UNODB_DETAIL_VERIF_FIXED_ITER_STACK=6'], max_node_type=2,
+               stubs=['tag_ptr', 'node_type', 'node_ptr', 'lib_abort', 'keybuf_noop'], noinline=['@_ZN5unodb6detail10key_buffer(4push|3pop)E'],
+               extra_glue=['qptr_glue.c'], extern_c=QPTR_EXT)
+        for e in OLC_DBG_SEQ:
+            qs.append(Query('olcdbg-%s%s' % (e, '' if cfg == 'debug' else '-nostats'), ud, e, unwind=14, flags=['--slice-formula'], replay='native',
+                            tier='quick' if cfg == 'debug' else 'thorough',
+                            about='assertion-enabled olc_db, one thread: %s; then every key removed and three quiescent states so that every node is freed through the debug callback; '
+                                  'the halting position of the scan visitors is symbolic' % OLC_DBG_SEQ[e],
+                            bounds={'sequence': 'constant', 'halt': 'symbolic 1..12', 'tree': '<= 3 inner levels, I4/I16'}))
     return Check('C16', 'model_checking', qs,
                  assumptions=['"identical across configurations" is concluded from "each configuration equals the same harness-side oracle for all inputs within the bounds"',
                               'assertion-enabled IR: UNODB_DETAIL_ASSERT -> assert() -> __assert_fail is an assertion failure in the encoding, so a library assertion that can fire on valid use is reported',
